@@ -7,6 +7,11 @@ Extends `harness.sim.scenario.Sim` locally (nothing in harness/sim is modified):
    - echo delay of the operator's OWN writes vs. foreign writes (+ a jitter sequence for foreign ones);
      per-watch FIFO order is kept by the fake API as Kubernetes keeps it (checked by the C07 harness);
    - reactive foreign edits: `offsets` ticks after the n-th own write was applied.
+   - `"rv"`: how the server numbers its versions (they are opaque strings to a client; the fake API's own default is
+     101, 102, 103, …: one decimal width for a whole history): {"start": n — the counter before the first object of the
+     history, "strides": [gaps, cyclic — other objects of a real cluster consume versions in between], "jumps":
+     [{"nth": n} — right before the n-th PATCH request of the operator (after a slipped-in foreign write) the counter
+     leaps to the end of its decimal width: the next version is the first one that is one digit longer]}.
  * extra observation (module attributes patched inside a context manager, restored after):
    - `queueing.worker`: one record per worker life (arrivals into the backlog, dequeues, exit time);
    - `processing.process_resource_causes`: patch emptiness at the entry, stream pressure, consistency_time;
@@ -78,6 +83,11 @@ class Sim07(scenario.Sim):
         self.marked_writes = 0
         self.foreign_counter = 1000
         self._own = False
+        self.own_requests = 0
+        self.rv_plan = dict(c7.get("rv") or {})
+        self.rv_jumps = [dict(j) for j in self.rv_plan.get("jumps", [])]
+        if self.rv_plan:
+            self._install_rv_plan()
         self.lives: list[dict] = []
         self.deliveries: list[dict] = []
         cl = self.cluster
@@ -137,9 +147,55 @@ class Sim07(scenario.Sim):
                                 "t_emit": asyncio.get_event_loop().time(), "delay": d})
         return d
 
+    def _install_rv_plan(self) -> None:
+        """The server's numbering of its versions: where the counter starts, which gaps it leaves (nothing in harness/sim
+        is modified: the versions handed out so far — the two namespaces of `Cluster.__init__` — are re-based, the counter
+        is wrapped)."""
+        cl = self.cluster
+        start = self.rv_plan.get("start")
+        if start is not None:
+            base = 100                     # fakeapi.Cluster: `self.rv = 100` before anything is stored
+            shift = int(start) - base
+
+            def re_based(body: dict) -> None:
+                body["metadata"]["resourceVersion"] = str(int(body["metadata"]["resourceVersion"]) + shift)
+
+            if int(start) < 1 or cl.horizon and any(cl.horizon.values()):
+                raise ValueError("rv plan: the counter starts at 1 or above, before any compaction")
+            for body in cl.objects.values():
+                re_based(body)
+            for k, entries in cl.log.items():
+                cl.log[k] = [(rv + shift, et, snap) for rv, et, snap in entries]
+                for _, _, snap in cl.log[k]:
+                    re_based(snap)
+            for versions in cl.history.values():
+                for v in versions:
+                    re_based(v["body"])
+            cl.rv += shift
+        strides = [int(g) for g in self.rv_plan.get("strides", [1])] or [1]
+        if any(g < 1 for g in strides):
+            raise ValueError("rv plan: strides are >= 1")
+        orig_next = cl._next_rv
+        n = [0]
+
+        def next_rv() -> int:
+            cl.rv += strides[n[0] % len(strides)] - 1
+            n[0] += 1
+            return orig_next()
+
+        cl._next_rv = next_rv  # type: ignore[method-assign]
+
     def _tag(self, req: dict) -> None:
         rec = observe._cycle.get()
         req["cycle"] = rec["i"] if rec is not None else None
+        if self.rv_jumps and req.get("method") == "PATCH" and "/kopfexamples/" in req.get("path", ""):
+            self.own_requests += 1
+            for j in self.rv_jumps:
+                if j.get("nth") == self.own_requests and not j.get("done"):
+                    j["done"] = True
+                    cl = self.cluster
+                    cl.rv = max(cl.rv, 10 ** len(str(cl.rv)) - 1)     # the next version is one digit longer
+                    self.mark("rv-jump", rv=cl.rv)
 
     def _after_write(self, req: dict, out: dict | None) -> None:
         loop = asyncio.get_event_loop()
